@@ -441,9 +441,16 @@ class _Gen:
         lb = "".join(self.rng.sample(lb, len(lb)))
         dims = dict(zip(la, ia.shape))
         shp_b = tuple(dims.get(c, None) if c in dims else self.rng.randint(1, self.cfg.max_len) for c in lb)
-        # broadcast-unit axis in b
-        shp_b = tuple((1 if (self.rng.random() < 0.12 and c != contract) else d) for c, d in zip(lb, shp_b))
-        b = self.pick(lambda i: i.shape == shp_b and i.dtype.kind in "iufc") or \
+        # broadcast-unit axis in b (also on the contracted index: the other operand then fixes its extent)
+        shp_b = tuple((1 if self.rng.random() < 0.12 else d) for c, d in zip(lb, shp_b))
+        if klen == 1 and self.rng.random() < 0.5:
+            # ... or in a: the FIRST operand is the one that broadcasts along the contraction
+            klen = self.rng.randint(2, max(2, self.cfg.max_len))
+            shp_b = tuple(klen if c == contract else d for c, d in zip(lb, shp_b))
+        b = None
+        if shp_b == tuple(ia.shape) and self.rng.random() < 0.3:
+            b = a       # one operand twice
+        b = b or self.pick(lambda i: i.shape == shp_b and i.dtype.kind in "iufc") or \
             self.leaf(shp_b, self.rand_dtype("iuf" if ia.dtype.kind != "c" else "fc"))
         ib = self.info[id(b)]
         bound = ia.bound * ib.bound * max(klen, 1)
@@ -494,6 +501,8 @@ class _Gen:
                 others = [self.pick(lambda i: i.shape == ia.shape and i.dtype == ia.dtype) or
                           self.leaf(ia.shape, ia.dtype) for _ in range(self.rng.randint(0, 2))]
                 arrs = [a, *others]
+                if self.rng.random() < 0.25:
+                    arrs.append(self.rng.choice(arrs))      # one operand several times
                 self.rng.shuffle(arrs)
                 if nd >= self.cfg.max_rank + 1:
                     return
@@ -509,6 +518,8 @@ class _Gen:
                     shp[ax] = self.rng.randint(0 if self.cfg.allow_zero_size else 1, self.cfg.max_len)
                     arrs.append(self.pick(lambda i: i.shape == tuple(shp) and i.dtype == ia.dtype)
                                 or self.leaf(tuple(shp), ia.dtype))
+                if self.rng.random() < 0.25:
+                    arrs.append(self.rng.choice(arrs))      # one operand several times (z, x, z)
                 self.rng.shuffle(arrs)
                 e = pt.concatenate(arrs, axis=ax)
                 b = max(self.info[id(x)].bound for x in arrs)
